@@ -1,7 +1,7 @@
 (* T21, _eval_dont_cares (part 3): the rows, the second loop, and the equality with PatternSim.reachable_vectors. *)
 Require Import Cirbo.Model.Base Cirbo.Model.Gate Cirbo.Model.Circuit Cirbo.Model.Traverse Cirbo.Model.Eval
         Cirbo.Model.PatternSim.
-Require Import Cirbo.Model.SubcircuitPrims Cirbo.Model.SubcircuitAlg.
+Require Import Cirbo.Model.SubcircuitPrims Cirbo.Model.SubcircuitAlg Cirbo.Model.SubcircuitGlue.
 Require Import Cirbo.Generated.GateTypes Cirbo.Generated.PatternOps Cirbo.Generated.SubcircuitAlgGen.
 Require Import Cirbo.Proofs.DictFacts Cirbo.Proofs.SubcircuitPrimsFacts Cirbo.Proofs.SubcircuitAlgGenCare1
         Cirbo.Proofs.SubcircuitAlgGenCare2.
@@ -190,9 +190,6 @@ Qed.
 End Second.
 
 (* ---- assembly ---- *)
-Definition dont_care_strings (vs : list (list bool)) : list string :=
-  py_sorted_strs (py_set_of_list (map str_of_bits vs)).
-
 Lemma mapM_ext_in {A B} (f g : A -> res B) l : (forall x, In x l -> f x = g x) -> mapM f l = mapM g l.
 Proof.
   induction l as [|x l IH]; intros H; [reflexivity|]. cbn [mapM]. rewrite (H x (or_introl eq_refl)).
